@@ -6,205 +6,14 @@
    [remove], [sorted], [deriver_add], [default_derivers], [derivers_sorted]. *)
 From Coq Require Import List NArith ZArith Bool.
 Import ListNotations.
-Require Import Verif.Lib.Wire Verif.Gen.Facts_C18.
+Require Import Verif.Lib.Wire.
+Require Export Verif.Model.C18_base.
+Require Import Verif.Gen.Facts_C18.
 
-Definition node := text.                 (* names and sentinels, compared with == *)
-Definition arc := (node * node)%type.
-
-(* a constraint argument as the caller wrote it: None | one name/sentinel | an iterable *)
-Inductive hint := HNone | HOne (u : node) | HMany (l : list node).
-
-(* if not is_nonstr_iter(x): x = (x,) *)
-Definition norm_hint (h : hint) : option (list node) :=
-  match h with HNone => None | HOne u => Some [u] | HMany l => Some l end.
-
-(* ---- insertion-ordered dict *)
-Section Assoc.
-Context {V : Type}.
-Fixpoint aget (k : node) (l : list (node * V)) : option V :=
-  match l with
-  | [] => None
-  | (k', v) :: r => if text_eqb k k' then Some v else aget k r
-  end.
-Fixpoint aset (k : node) (v : V) (l : list (node * V)) : list (node * V) :=
-  match l with
-  | [] => [(k, v)]
-  | (k', v') :: r => if text_eqb k k' then (k', v) :: r else (k', v') :: aset k v r
-  end.
-Fixpoint adel (k : node) (l : list (node * V)) : list (node * V) :=
-  match l with
-  | [] => []
-  | (k', v') :: r => if text_eqb k k' then r else (k', v') :: adel k r
-  end.
-End Assoc.
-
-(* list.remove(x): first occurrence (no-op when absent; Python would raise) *)
-Fixpoint remove_first (x : node) (l : list node) : list node :=
-  match l with [] => [] | y :: r => if text_eqb x y then r else y :: remove_first x r end.
-Definition arc_eqb (x y : arc) : bool := text_eqb (fst x) (fst y) && text_eqb (snd x) (snd y).
-Fixpoint remove_arc (x : arc) (l : list arc) : list arc :=
-  match l with [] => [] | y :: r => if arc_eqb x y then r else y :: remove_arc x r end.
-Definition set_add (x : node) (l : list node) : list node := if mem_text x l then l else l ++ [x].
-
-(* ---- TopologicalSorter state *)
-Record sorter := mkSorter {
-  names : list node;
-  req_before : list node;                 (* set *)
-  req_after : list node;                  (* set *)
-  name2before : list (node * list node);  (* dict *)
-  name2after : list (node * list node);   (* dict *)
-  name2val : list (node * N);             (* dict; values are opaque, here an id *)
-  order : list arc;
-  default_before : hint;
-  default_after : hint;
-  first : node;
-  last : node
-}.
-
-Definition cfg := (hint * hint * node * node)%type.   (* default_before, default_after, first, last *)
-Definition hint_of_fact (o : option text) : hint := match o with Some u => HOne u | None => HNone end.
-Definition cfg_of_raw (r : option text * option text * text * text) : cfg :=
-  let '(db, da, f, l) := r in (hint_of_fact db, hint_of_fact da, f, l).
 (* the three sorters the framework creates (constructor arguments are regenerated facts) *)
 Definition cfg_plain : cfg := cfg_of_raw cfg_plain_raw.        (* TopologicalSorter(): predicate lists *)
 Definition cfg_tweens : cfg := cfg_of_raw cfg_tweens_raw.      (* Tweens.__init__ *)
 Definition cfg_derivers : cfg := cfg_of_raw cfg_derivers_raw.  (* add_view_deriver *)
-Definition new_sorter (c : cfg) : sorter :=
-  let '(db, da, f, l) := c in mkSorter [] [] [] [] [] [] [] db da f l.
-
-Definition upd (s : sorter) nm rb ra n2b n2a n2v ord : sorter :=
-  mkSorter nm rb ra n2b n2a n2v ord (default_before s) (default_after s) (first s) (last s).
-
-Definition nonempty {A} (l : list A) : bool := match l with [] => false | _ => true end.
-
-(* def remove(self, name); None = ValueError from names.remove(name) *)
-Definition remove (name : node) (s : sorter) : option sorter :=
-  if mem_text name (names s) then
-    (* after = self.name2after.pop(name, None); if after is not None: ... *)
-    let '(ra, ord1) :=
-      match aget name (name2after s) with
-      | Some after => (remove_first name (req_after s),
-                       fold_left (fun o u => remove_arc (u, name) o) after (order s))
-      | None => (req_after s, order s)
-      end in
-    let '(rb, ord2) :=
-      match aget name (name2before s) with
-      | Some before => (remove_first name (req_before s),
-                        fold_left (fun o u => remove_arc (name, u) o) before ord1)
-      | None => (req_before s, ord1)
-      end in
-    Some (upd s (remove_first name (names s)) rb ra
-              (adel name (name2before s)) (adel name (name2after s)) (adel name (name2val s)) ord2)
-  else None.
-
-Definition opt_list (o : option (list node)) : list node := match o with Some l => l | None => [] end.
-
-(* the tail of add(): after/before already defaulted and wrapped ([None] = not given) *)
-Definition add_core (name : node) (val : N) (after before : option (list node)) (s : sorter) : sorter :=
-  upd s (names s ++ [name])
-      (match before with Some _ => set_add name (req_before s) | None => req_before s end)
-      (match after with Some _ => set_add name (req_after s) | None => req_after s end)
-      (match before with Some b => aset name b (name2before s) | None => name2before s end)
-      (match after with Some a => aset name a (name2after s) | None => name2after s end)
-      (aset name val (name2val s))
-      ((order s ++ map (fun u => (u, name)) (opt_list after)) ++ map (fun o => (name, o)) (opt_list before)).
-
-(* def add(self, name, val, after=None, before=None) *)
-Definition add (name : node) (val : N) (after before : hint) (s : sorter) : sorter :=
-  let s := if mem_text name (names s)
-           then match remove name s with Some s' => s' | None => s end else s in
-  let '(after, before) :=
-    match after, before with
-    | HNone, HNone => (default_after s, default_before s)
-    | _, _ => (after, before)
-    end in
-  add_core name val (norm_hint after) (norm_hint before) s.
-
-(* ---- sorted() *)
-Definition gentry := (Z * list node)%type.          (* graph[node] = [in-degree, child, child, ...] *)
-Definition graph := list (node * gentry).
-
-Definition add_node (st : graph * list node) (n : node) : graph * list node :=
-  let '(g, roots) := st in
-  match aget n g with
-  | Some _ => st
-  | None => (g ++ [(n, (0%Z, []))], roots ++ [n])
-  end.
-
-Definition add_arc (st : graph * list node) (e : arc) : graph * list node :=
-  let '(g, roots) := st in
-  let '(a, b) := e in
-  let g1 := match aget a g with Some (c, ch) => aset a (c, ch ++ [b]) g | None => g end in
-  let g2 := match aget b g1 with Some (c, ch) => aset b ((c + 1)%Z, ch) g1 | None => g1 end in
-  (g2, remove_first b roots).
-
-Definition all_names (s : sorter) : list node := first s :: last s :: names s.
-Definition all_order (s : sorter) : list arc := (first s, last s) :: order s.
-Definition arc_present (nm : list node) (e : arc) : bool := mem_text (fst e) nm && mem_text (snd e) nm.
-
-Definition build (s : sorter) : graph * list node :=
-  let nm := all_names s in
-  let st := fold_left add_node nm ([], []) in
-  fold_left (fun st e => if arc_present nm e then add_arc st e else st) (all_order s) st.
-
-(* {name for name, alts in d.items() if any(a in names for a in alts)} *)
-Definition has_dep (nm : list node) (d : list (node * list node)) : list node :=
-  map fst (filter (fun kv => existsb (fun a => mem_text a nm) (snd kv)) d).
-Definition missing (req has : list node) : list node := filter (fun n => negb (mem_text n has)) req.
-
-Definition visit (st : option (list node * graph)) (child : node) : option (list node * graph) :=
-  match st with
-  | None => None
-  | Some (roots, g) =>
-      match aget child g with
-      | None => None                                    (* KeyError: impossible, see Proofs *)
-      | Some (c, ch) =>
-          let c' := (c - 1)%Z in
-          Some (if Z.eqb c' 0 then child :: roots else roots, aset child (c', ch) g)
-      end
-  end.
-
-(* while roots: ...   [em] is sorted_names, most recent first *)
-Fixpoint loop (fuel : nat) (roots : list node) (g : graph) (em : list node) : option (graph * list node) :=
-  match roots with
-  | [] => Some (g, em)
-  | root :: rs =>
-      match fuel with
-      | O => None
-      | S f =>
-          match aget root g with
-          | None => None
-          | Some (_, children) =>
-              match fold_left visit children (Some (rs, g)) with
-              | None => None
-              | Some (rs', g') => loop f rs' (adel root g') (root :: em)
-              end
-          end
-      end
-  end.
-
-Inductive outcome :=
-| Sorted (l : list (node * N))
-| UnsatBefore (l : list node)
-| UnsatAfter (l : list node)
-| Cyclic (l : list (node * list node))
-| Internal.                                  (* fuel exhausted / KeyError: proved impossible *)
-
-Definition val_of (s : sorter) (n : node) : N := match aget n (name2val s) with Some v => v | None => 0%N end.
-
-Definition sorted (s : sorter) : outcome :=
-  let nm := all_names s in
-  let '(g, roots) := build s in
-  let mb := missing (req_before s) (has_dep nm (name2before s)) in
-  if nonempty mb then UnsatBefore mb else
-  let ma := missing (req_after s) (has_dep nm (name2after s)) in
-  if nonempty ma then UnsatAfter ma else
-  match loop (length g) roots g [] with
-  | None => Internal
-  | Some (g', em) =>
-      if nonempty g' then Cyclic (map (fun kv => (fst kv, snd (snd kv))) g')
-      else Sorted (map (fun n => (n, val_of s n)) (filter (fun n => mem_text n (names s)) (rev em)))
-  end.
 
 (* ---- operations on a sorter, as driven by the harness *)
 Inductive op := OAdd (name : node) (val : N) (after before : hint) | ORemove (name : node).
@@ -323,19 +132,7 @@ Definition cfg_ok (c : cfg) : bool := let '(db, da, _, _) := c in hint_ok db && 
 
 (* =====================================================================
    Tweens (config/tweens.py) *)
-Inductive handler := Base | Wrap (name : node) (factory : N) (inner : handler).
-Inductive event := Enter (n : node) | Exit (n : node) | Call.
-
-Fixpoint trace (h : handler) : list event :=
-  match h with
-  | Base => [Call]
-  | Wrap n _ h' => Enter n :: trace h' ++ [Exit n]
-  end.
-
-Record tweens := mkTweens { tw_sorter : sorter; tw_explicit : list (node * N) }.
 Definition new_tweens : tweens := mkTweens (new_sorter cfg_tweens) [].
-Definition add_explicit (n : node) (f : N) (t : tweens) : tweens :=
-  mkTweens (tw_sorter t) (tw_explicit t ++ [(n, f)]).
 (* self.sorter.add(name, factory, after=under, before=over) *)
 Definition add_implicit (n : node) (f : N) (under over : hint) (t : tweens) : tweens :=
   let '(a, b) := if tw_after_is_under then (under, over) else (over, under) in
